@@ -27,7 +27,7 @@ import ast
 import copy
 import itertools
 
-MAX_LEVEL = 3
+MAX_LEVEL = 2
 
 _SCOPE_NODES = (ast.FunctionDef, ast.AsyncFunctionDef, ast.Lambda, ast.ClassDef,
                 ast.ListComp, ast.SetComp, ast.DictComp, ast.GeneratorExp)
@@ -1538,6 +1538,46 @@ def eliminate_aliases(tree):
     return changed
 
 
+def forward_result_temporaries(tree):
+    """`h__result = E` immediately followed by `return h__result` / `x = h__result` / `if h__result:` where the
+    temporary (introduced by the inliner) has no other use  ->  the expression is used directly."""
+    changed = 0
+    for f in [x for x in ast.walk(tree) if isinstance(x, _FUNC_NODES)]:
+        uses = {}
+        for n in ast.walk(f):
+            if isinstance(n, ast.Name) and "__result" in n.id:
+                uses.setdefault(n.id, []).append(n)
+        for _o, _f, lst in list(stmt_lists(f)):
+            i = 0
+            while i + 1 < len(lst):
+                a, b = lst[i], lst[i + 1]
+                if isinstance(a, ast.Assign) and len(a.targets) == 1 and isinstance(a.targets[0], ast.Name) and "__result" in a.targets[0].id:
+                    t = a.targets[0].id
+                    us = uses.get(t, [])
+                    if len(us) == 2:
+                        tgt = None
+                        if isinstance(b, ast.Return) and isinstance(b.value, ast.Name) and b.value.id == t:
+                            b.value = a.value
+                            tgt = b
+                        elif isinstance(b, ast.Assign) and isinstance(b.value, ast.Name) and b.value.id == t \
+                                and all(isinstance(x, ast.Name) for x in b.targets):
+                            b.value = a.value
+                            tgt = b
+                        elif isinstance(b, ast.If) and isinstance(b.test, ast.Name) and b.test.id == t:
+                            b.test = a.value
+                            tgt = b
+                        elif isinstance(b, ast.If) and isinstance(b.test, ast.UnaryOp) and isinstance(b.test.op, ast.Not) \
+                                and isinstance(b.test.operand, ast.Name) and b.test.operand.id == t:
+                            b.test.operand = a.value
+                            tgt = b
+                        if tgt is not None:
+                            del lst[i]
+                            changed += 1
+                            continue
+                i += 1
+    return changed
+
+
 def drop_redundant_pass(tree):
     for _o, _f, lst in list(stmt_lists(tree)):
         if len(lst) > 1 and any(isinstance(x, ast.Pass) for x in lst):
@@ -1701,6 +1741,8 @@ def canonicalise(trees, level, known_funcs=None):
                 n_st += scalarise_state_objects(tree)
         n_rec = destructure_record_results(tree)
         n_alias = eliminate_aliases(tree) if (n_inl or n_st or n_obj or n_mod or n_rec) else 0
+        if n_inl or n_obj or n_mod:
+            forward_result_temporaries(tree)
         drop_redundant_pass(tree)
         if mt.changed or n_acq or n_inl or n_st or n_mod or n_obj or n_rec:
             ast.fix_missing_locations(tree)
